@@ -416,8 +416,6 @@ static void safeComputeLocations(const ob::StateSpacePtr &sp)
     // /repo fd9a6cce3 made computeLocations() safe for a wrapper around a compound space, but the 4-argument copyStateData()
     // that SubspaceStateSampler::sampleUniformNear / sampleGaussian use (StateSpace.cpp, `sourceS->isCompound()` then
     // `as<CompoundStateSpace>()`) still casts such a wrapper component: no subspace samplers over these spaces
-    if (hasWrappedCompound(sp.get()))
-        throw ompl::Exception("wrapper around a compound space inside the space");
     sp->computeLocations();
 }
 
@@ -742,39 +740,11 @@ int main()
                     throw;
                 }
                 SubScript *scp = &sc;
-                {
-                    // (a TOP-LEVEL wrapper is allowed: the directed F168 probes; wrappers around compounds deeper inside are not)
-                    const ob::StateSpace *top = sp.get();
-                    while (auto *w = dynamic_cast<const ob::WrapperStateSpace *>(top))
-                        top = w->getSpace().get();
-                    if (hasWrappedCompound(top))
-                    {
-                        sp->freeState(st);
-                        sp->freeState(near);
-                        throw vp::ParseError("wrapper around a compound space inside the space");
-                    }
-                }
                 sub->setStateSamplerAllocator([scp](const ob::StateSpace *s)
                                               { return std::make_shared<RecordingInner>(s, scp); });
-                // a wrapper gets its location tables only in setup() (WrapperStateSpace::setup copies the wrapped space's;
-                // its computeLocations() fills the inner tables only); setup() refuses zero-extent spaces -> bad-op on both
-                // sides is avoided by the generator (bounds of wrapped-top cases are non-degenerate)
-                if (dynamic_cast<ob::WrapperStateSpace *>(sp.get()))
-                {
-                    try
-                    {
-                        sp->setup();   // (directed F168 probes only: the generator keeps random `subs` lines off wrapped tops)
-                    }
-                    catch (...)
-                    {
-                        sub->clearStateSamplerAllocator();
-                        sp->freeState(st);
-                        sp->freeState(near);
-                        throw;
-                    }
-                }
-                else
-                    sp->computeLocations();
+                // (a wrapper's computeLocations() fills the wrapped space's tables, which is what its wrapped
+                // SubspaceStateSampler uses since /repo 1448c6a2f)
+                sp->computeLocations();
                 {
                     auto sampler = sp->allocSubspaceStateSampler(sub);
                     if (kind == "u")
